@@ -28,6 +28,7 @@ type program struct {
 	desc            []string
 	renamesExpected bool
 	outcome         string
+	links           []string // user files of p that are symbolic links to a file of the same name under _shared/
 }
 
 var suffixPool = []string{"", "A", "B", "X1", "ForTheFirstType", "WithAVeryLongSuffixToMakeTheNameLongerThanAnyFreshName", "Q", "Z9"}
@@ -219,6 +220,12 @@ func drawProgram(t *rapid.T) *program {
 	default:
 		pr.outcome = "normal"
 	}
+	if rapid.IntRange(0, 3).Draw(t, "symlinked") == 0 {
+		// one of the user's files is a symbolic link (the file itself is kept elsewhere): whatever is written to it
+		// has to arrive in the file it points to, and it has to stay a link
+		pr.links = []string{fmt.Sprintf("p/f%d.go", rapid.IntRange(0, nfiles-1).Draw(t, "symlink-file"))}
+		pr.desc = append(pr.desc, "symlink:"+pr.links[0])
+	}
 	return pr
 }
 
@@ -281,6 +288,18 @@ func judge(c *pkit.Ctx, pr *program) (map[string]string, string, bool) {
 	if err := gorun.WriteFiles(dir, pr.files); err != nil {
 		return map[string]string{"check": "infra"}, err.Error(), false
 	}
+	linked := map[string]string{} // path under _shared/ -> the link in p/
+	for _, l := range pr.links {
+		target := filepath.Join("_shared", filepath.Base(l))
+		os.MkdirAll(filepath.Join(dir, "_shared"), 0o755)
+		if err := os.Rename(filepath.Join(dir, l), filepath.Join(dir, target)); err != nil {
+			return map[string]string{"check": "infra"}, err.Error(), false
+		}
+		if err := os.Symlink(filepath.Join("..", target), filepath.Join(dir, l)); err != nil {
+			return map[string]string{"check": "infra"}, err.Error(), false
+		}
+		linked[target] = l
+	}
 	before, _ := gorun.Snapshot(dir)
 	res := gorun.RunGoderive(dir, append(append([]string{}, pr.flags...), "./p")...)
 	if res.Err != nil || res.TimedOut {
@@ -298,6 +317,13 @@ func judge(c *pkit.Ctx, pr *program) (map[string]string, string, bool) {
 		}
 		if strings.HasSuffix(path, "/") && d[0] == '~' {
 			continue // directory mtime/mode noise is not part of the snapshot; kept for safety
+		}
+		if l, ok := linked[path]; ok && flagged && d[0] == '~' && after[path].Sum == after[l].Sum {
+			continue // the file a link of p points to: judged through the link
+		}
+		if d[0] == '~' && before[path].Mode.Type() != after[path].Mode.Type() {
+			sig["check"] = "file-type-changed"
+			return sig, fmt.Sprintf("goderive %v turned %s from %v into %v\nall changes: %v", pr.flags, path, before[path].Mode.Type(), after[path].Mode.Type(), diffs), nt
 		}
 		if !flagged || d[0] != '~' || !strings.HasSuffix(path, ".go") || !strings.HasPrefix(path, "p/") {
 			sig["check"] = "foreign-file-touched"
@@ -375,7 +401,7 @@ func TestProp(t *testing.T) {
 		}
 		c.Rep.Sample(map[string]any{"flags": pr.flags, "outcome": pr.outcome, "calls": pr.desc})
 		if sig != nil {
-			c.Fail(rt, sig, msg, pr.files, map[string]any{"flags": pr.flags})
+			c.Fail(rt, sig, msg, pr.files, map[string]any{"flags": pr.flags, "links": pr.links})
 		}
 	})
 }
@@ -395,6 +421,11 @@ func TestReplay(t *testing.T) {
 	if fl, ok := meta["flags"].([]any); ok {
 		for _, f := range fl {
 			pr.flags = append(pr.flags, fmt.Sprint(f))
+		}
+	}
+	if ls, ok := meta["links"].([]any); ok {
+		for _, l := range ls {
+			pr.links = append(pr.links, fmt.Sprint(l))
 		}
 	}
 	if sig, msg, _ := judge(pkit.Load(prop), pr); sig != nil {
